@@ -23,6 +23,14 @@ pub fn reset_clone_serial() {
     drain_clones();
 }
 
+thread_local! {
+    /// (type index, address) of components that were dropped at a misaligned address
+    pub static MISALIGNED: RefCell<Vec<(u64, u64)>> = RefCell::new(Vec::new());
+}
+pub fn take_misaligned() -> Vec<(u64, u64)> {
+    MISALIGNED.with(|d| std::mem::take(&mut *d.borrow_mut()))
+}
+
 pub fn drain_drops() -> Vec<(u64, u64)> {
     DROPS.with(|d| std::mem::take(&mut *d.borrow_mut()))
 }
@@ -59,6 +67,11 @@ macro_rules! comp_drop {
     ($name:ident) => {
         impl Drop for $name {
             fn drop(&mut self) {
+                // a component dropped in place must sit at an address aligned for its type
+                let addr = std::hint::black_box(self as *const $name as usize); // black_box: the optimiser assumes references are aligned
+                if addr % std::mem::align_of::<$name>() != 0 {
+                    let _ = MISALIGNED.try_with(|m| m.borrow_mut().push((<$name as Comp>::T, addr as u64)));
+                }
                 log_drop(<$name as Comp>::T, self.val());
             }
         }
